@@ -114,7 +114,7 @@ class MultiplexForecaster(
     def _check_selected_forecaster(self):
         component_names = [name for name, _ in self.forecasters]
         if self.selected_forecaster not in component_names:
-            raise Exception(
+            raise ValueError(
                 "Please check the selected_forecaster argument provided "
                 " Valid selected_forecaster parameters: {}".format(component_names)
             )
